@@ -178,6 +178,16 @@ fn write_fault_sweep(only: Option<&Value>) -> R {
         let mut faults: Vec<String> = vec!["none".into()];
         faults.extend(written.iter().cloned());
         faults.push(HEAD_BY_FILE.into());
+        // a second kind of write failure for new blocks: NOT-FOUND instead of already-exists (the block's sub-directory
+        // is a dangling symlink: create_dir sees "exists", the write of the block then fails with ENOENT) -- a tolerance
+        // of "file vanished during backup" must not swallow a failed STORAGE write (round 8, seed C04-6)
+        const NF: &str = " (its sub-directory is a dangling symlink: the write fails with not-found)";
+        for w in written.iter().filter(|w| w.starts_with("d/")) {
+            let sub = Path::new(w).parent().map(|p| p.to_path_buf()).unwrap_or_default();
+            if !base.join(&sub).exists() {
+                faults.push(format!("{w}{NF}"));
+            }
+        }
         for fault in faults {
             if skip(only, "fault", &json!(fault)) {
                 continue;
@@ -198,6 +208,10 @@ fn write_fault_sweep(only: Option<&Value>) -> R {
                 // count as a version): the band directory name is a symlink to a directory in which BANDHEAD is occupied
                 su!(std::fs::create_dir_all(outside.join("BANDHEAD")));
                 su!(symlink(&outside, work.join("b0001")));
+            } else if fault.starts_with("d/") && fault.ends_with(NF) {
+                let blk = fault.trim_end_matches(NF);
+                let sub = Path::new(blk).parent().map(|p| p.to_path_buf()).unwrap_or_default();
+                su!(symlink("/nonexistent-target-of-a-dangling-link/x", work.join(&sub)));
             } else if fault.starts_with("d/") {
                 su!(std::fs::create_dir_all(work.join(&fault)));
             } else {
